@@ -43,6 +43,9 @@ fn plans(tier: Tier) -> Vec<SectionPlan> {
         // sliders whose path is only the type letter / empty: any shortcut for them must still start from clean buffers
         "256,192,450,2,0,L,1,100",
         "256,192,470,2,0,,2,40",
+        // sliders without a length of their own (field absent / zero): nothing of an earlier line may fill it in
+        "100,100,480,2,0,B|200:100|200:200,1",
+        "100,100,490,2,0,L|200:100,1,0",
         // corruptions: rejected after partial progress
         "100,100,310,2,0,B|10:10|20:20|L|30:30|xx:1,1,100",
         "100,100,320,2,0,B|10:10|10:10|20:20|P|30:30|40:x,1,100",
@@ -334,6 +337,7 @@ fn e2_lines() -> Vec<&'static str> {
         "100,100,300,2,0,B|200:100|200:200,1,150",
         "100,100,400,2,0,B|150:150|150:150|200:100|L|250:100,1,220",
         "256,192,600,12,0,900",
+        "100,100,480,2,0,B|200:100|200:200,1",
         "100,100,310,2,0,B|10:10|20:20|L|30:30|xx:1,1,100",
         "100,100,320,2,0,B|10:10|10:10|20:20|P|30:30|40:x,1,100",
         "100,100,340,2,0,B|10:10|x,1,100",
